@@ -193,16 +193,20 @@ def main():
 
     # ---- report
     violations = []
-    seen_groups = set()
+    groups = {}
     for rec, o in failed:
-        grp = (rec['harness'], o['name'].split('@')[0])
-        path, reproduced = write_replay(prop, rec, o)
-        if grp in seen_groups:
-            continue
-        seen_groups.add(grp)
+        groups.setdefault((rec['harness'], o['name'].split('@')[0]), []).append((rec, o))
+    for grp, items in groups.items():
+        best = None
+        for rec, o in items[:6]:
+            path, reproduced = write_replay(prop, rec, o)
+            if best is None or (reproduced and not best[2]):
+                best = (path, o, reproduced)
+        path, o, reproduced = best
         tail = '' if reproduced else ' no-failing-input-found'
-        violations.append((path, o, reproduced))
-        print('FAILED obligation %s\n   clause: %s\n   model: %s' % (o['name'], o['clause'], json.dumps(o['model'])[:600]))
+        violations.append(best)
+        print('FAILED obligation %s  (%d path(s))\n   clause: %s\n   model: %s'
+              % (o['name'], len(items), o['clause'], json.dumps(o['model'])[:400]))
         print('VIOLATION property=%s replay=%s%s' % (prop, path, tail))
     for kid, (k, names) in known_hits.items():
         print('KNOWN-FINDING: property=%s %s [%s; %d obligation(s)]' % (prop, k['what'], kid, len(names)))
